@@ -63,6 +63,8 @@ func init() {
 		{"C09", "levels", props.LevelsKeepOrder},
 		{"C09", "deadoutput", props.DeadNotOutput},
 		{"C05", "deadoutput", props.DeadNotOutput},
+		{"C05", "streamarms", props.StreamGetSetArms},
+		{"C01", "streamarms", props.StreamGetSetArms},
 		{"C10", "deadoutput", props.DeadNotOutput},
 		{"C10", "levels", props.LevelsKeepOrder},
 		{"C20", "voleext", props.VoleExtensionCounts},
